@@ -164,7 +164,8 @@ def doProcess (P : Pipeline Attr) (Fn : Funs Attr V) (s : State Attr V) (build :
   | some p =>
     if allSet P.postReads s.cache then
       let s1 := { s with fitted := some (Fn.post (view P.postReads s.cache) p) }
-      if build then buildPredictor P Fn s1 else (.ok, s1)
+      -- without `build_predict` a predictor of an earlier latent state is dropped (rebuilt lazily on access)
+      if build then buildPredictor P Fn s1 else (.ok, { s1 with predictor := none })
     else (.error, s)
   | none => (.error, s)
 
